@@ -5,8 +5,8 @@ import Abmarl.Model.Managers
 `GymWrapper`: reset/step of the single learning agent.  `OpenSpielWrapper`: the state machine
 with `_should_reset` and `current_player`, `_append_obs` (which reads `sim.sim.get_obs`
 directly, an effectful read on the simulation inside the manager), the filtering of actions of
-done agents, the fake step, and (after repair F5) the choice of the first not-done reported
-agent as current player.  Every adapter call records, as ghost, the manager calls it made.
+done agents, the fake step, and (after repairs F5 and C15-K1) the choice of the first not-done
+reported agent as current player, also in the fake step.  Every adapter call records, as ghost, the manager calls it made.
 -/
 namespace Abmarl
 variable {σ α ω ι : Type}
@@ -113,6 +113,13 @@ def pickCurrent (obs : List (Aid × ω)) (dones : List (Aid × Bool)) : Option A
   | some p => some p.1
   | none => obs.head?.map (·.1)
 
+/-- `_take_fake_step`'s current player (repair C15-K1): the first key of the appended observations that
+is not in the manager's `done_agents`, else the first key -/
+def pickFake (obs : List (Aid × ω)) (doneSet : List Aid) : Option Aid :=
+  match (obs.filter fun p => !(decide (p.1 ∈ doneSet))).head? with
+  | some p => some p.1
+  | none => obs.head?.map (·.1)
+
 structure OSCall (α ω ι : Type) where
   res      : Except Err (TimeStep ω)
   /-- ghost: the manager calls made during this adapter call -/
@@ -154,12 +161,12 @@ def osStep (S : SimIface σ α ω ι) (k : MKind) (st : OSState σ) (acts : List
       if dict'.isEmpty then
         -- `_take_fake_step`
         let ao := appendObs S S.learners [] st.m.sim
-        match ao.1.head? with
+        match pickFake ao.1 st.m.doneSet with
         | none => (⟨.error .crash, []⟩, st)
-        | some p =>
-          (⟨.ok { infoState := ao.1, legal := S.learners, current := p.1,
+        | some cur =>
+          (⟨.ok { infoState := ao.1, legal := S.learners, current := cur,
                   rewards := some (appendReward S.learners []), stepType := .mid }, []⟩,
-           { st with m := { st.m with sim := ao.2 }, current := p.1 })
+           { st with m := { st.m with sim := ao.2 }, current := cur })
       else
         let r := runOp S k st.m (.step dict')
         match r.1.res with
